@@ -12,6 +12,8 @@ def plan(which, rng, thorough=True):
                 for storm in (1, 0):
                     size = rng.choice([150000, 400000, 1200000 if (mode == 3 and fam == 4) else 600000])
                     runs.append(["tcp", str(rng.randrange(1, 10**6)), str(fam), str(size), str(storm), str(mode)])
+            runs.append(["tcp", str(rng.randrange(1, 10**6)), str(fam), "2500000", "0", "0"])     # a few MB through 4 KiB socket buffers
+            runs.append(["tcp", str(rng.randrange(1, 10**6)), str(fam), "1200000", "1", "3"])
             for storm in (1, 0):
                 runs.append(["udp", str(rng.randrange(1, 10**6)), str(fam), str(storm)])
             runs.append(["gone", str(fam)])
